@@ -127,6 +127,7 @@ class SimLoop(asyncio.BaseEventLoop):
         self.transports = []
         self.fatal = None  # exception raised inside simulator-owned code
         self.spin_trace = []  # callbacks run just before a same-instant StepLimit
+        self.spin_owners = []  # and who owned them
 
     # -- identity / clock ---------------------------------------------------
     def _next_serial(self):
@@ -302,6 +303,8 @@ class SimLoop(asyncio.BaseEventLoop):
             is_timer = type(handle) is SimTimerHandle
             if self._same_instant > self.max_same_instant - 40:
                 self.spin_trace.append(_describe(handle))
+                self.spin_owners.append(handle._context.get(OWNER, "sim")
+                                        if handle._context is not None else "sim")
             handle._run()
             if is_timer:
                 self.fired += 1
